@@ -67,8 +67,13 @@ def check(repo, rep):
         ok = (v[0] == 'call' and v[1] == ('g', 'core', 'AudioRegion') and v[2] and v[2][0] == ('bin', '+', ('attr', ('self',), 'data'), ('attr', oth, 'data'))) or (v == ('self',) and empty_other)
         rep.ob('a + b carries exactly a.data + b.data (in this order)', ok, W(l.node), 'AudioRegion.__add__:data', 'returns %s' % show(v)[:120], sample=dict(op='+', result=show(v)[:100]))
         idx_check = [i for i, e in enumerate(l.effects) if e[0] == 'call' and ischeck(e[1], oth)]
-        rep.ob('a + b passes the parameter check before a region is returned', bool(idx_check), W(l.node), 'AudioRegion.__add__:check',
-               'no call of the compatibility check on the returning path')
+        inlined_check = set()          # the check may have been followed into (a helper the rules do not know): its comparisons are then on the path
+        for ct, tr, _ in l.conds:
+            g = norm_cmp(ct, tr)
+            if g and g[0] == '==' and g[1][0] == 'attr' and g[2][0] == 'attr' and {g[1][1], g[2][1]} == {('self',), oth} and ROLE_OF.get(g[1][2]) and ROLE_OF.get(g[1][2]) == ROLE_OF.get(g[2][2]):
+                inlined_check.add(ROLE_OF[g[1][2]])
+        rep.ob('a + b passes the parameter check before a region is returned', bool(idx_check) or inlined_check == set(ROLES), W(l.node), 'AudioRegion.__add__:check',
+               'no call of the compatibility check on the returning path (role comparisons on the path: %s)' % sorted(inlined_check))
     rep.ob('adding a non-region is rejected', seen_type, W(afn), 'AudioRegion.__add__:no-type-guard')
     # ---------------------------------------------------------------- join
     jl = cx.leaves('core', 'AudioRegion.join')
@@ -368,11 +373,54 @@ def check(repo, rep):
             else:
                 ok = t[0] == 'call' and t[1] == ('b', 'range') and len(t[2]) == 1 and t[2][0][0] == 'call' and t[2][0][1] == ('b', 'min') and set(t[2][0][2]) == {dn, nlen}
                 plain = t[0] == 'call' and t[1] == ('b', 'range') and t[2] == (dn,)
-                if ok or plain:
-                    rep.ob('division yields min(n, len) pieces: the loop is bounded by the number of samples, not only by n', ok, W(node), 'AudioRegion.__truediv__:loop-bound',
-                           'loop over %s: for n > len this produces n pieces with empty trailing regions' % show(t)[:60], loop_rule=True)
+                # decided by values: (length, divisor) pairs are taken through the conditions of the path; where the path applies, the bound of
+                # the loop must be min(divisor, length) (a path reached only when len // n > 0 may loop n times)
+                from ..semantic import evaluator as _ev17
+                from ..termeval import NotEvaluable as _NE17
+                verdict = None
+                if t[0] == 'call' and t[1] == ('b', 'range') and len(t[2]) == 1:
+                    verdict = True
+                    applied = 0
+                    for L_, N_ in ((0, 1), (1, 1), (3, 5), (5, 3), (4, 4), (7, 2), (2, 7), (0, 3), (9, 4)):
+                        assign = {nlen: L_, dn: N_}
+                        try:
+                            takes = True
+                            for ct, tr, _ in l.conds[:ent[-1][4] if len(ent[-1]) > 4 and isinstance(ent[-1][4], int) else len(l.conds)]:
+                                e_ = _ev17(assign)
+                                try:
+                                    got = e_.ev(ct)
+                                except _NE17:
+                                    continue
+                                if e_.leaves:
+                                    continue
+                                if bool(got) != tr:
+                                    takes = False
+                                    break
+                            if not takes:
+                                continue
+                            e_ = _ev17(assign)
+                            nb = e_.ev(t[2][0])
+                            if e_.leaves:
+                                verdict = None
+                                break
+                            applied += 1
+                            if nb != min(N_, L_):
+                                verdict = (L_, N_, nb)
+                                break
+                        except _NE17:
+                            verdict = None
+                            break
+                    if verdict is True and not applied:
+                        verdict = None
+                if verdict is None:
+                    if ok or plain:
+                        rep.ob('division yields min(n, len) pieces: the loop is bounded by the number of samples, not only by n', ok, W(node), 'AudioRegion.__truediv__:loop-bound',
+                               'loop over %s: for n > len this produces n pieces with empty trailing regions' % show(t)[:60], loop_rule=True)
+                    else:
+                        rep.unknown('AudioRegion.__truediv__: loop %s not understood' % show(t)[:60])
                 else:
-                    rep.unknown('AudioRegion.__truediv__: loop %s not understood' % show(t)[:60])
+                    rep.ob('division yields min(n, len) pieces: the loop is bounded by the number of samples, not only by n', verdict is True, W(node), 'AudioRegion.__truediv__:loop-bound',
+                           'loop over %s: %s' % (show(t)[:60], '' if verdict is True else 'a region of %d samples divided by %d is cut into %r pieces' % verdict), loop_rule=True)
     rep.floor('__truediv__ loop paths', nloop, 1)
     check_roles(cx, rep, lambda p: p['func'].startswith('AudioRegion.') or p['func'] in ('make_silence', 'split_and_join_with_silence'), floor=30)
     rep.explanation = ('Operator provenance decided from terms on every path: a+b = AudioRegion(a.data + b.data, same parameters) with TypeError for non-regions and the compatibility check on every returning path; '
